@@ -2247,3 +2247,43 @@ def check_psd_tolerance(case):
 
 
 SUBCHECKS.append(SubCheck("psd_tolerance", check_psd_tolerance, _psdtol_case, lambda c: f"{c['fn']},{c['side']},atol={c['atol']}", quick=1500, thorough=30000, shards=4))
+
+
+# Hermiticity tolerance on *zero* entries (np.allclose(mat, mat^dagger, rtol, atol): for an entry whose partner is 0 the
+# tolerance is atol alone).  Delegating predicates pass (rtol, atol) on positionally, so an exchanged order anywhere in
+# the chain moves this threshold from 1e-8 to 1e-5 without touching any O(1) entry.
+@st.composite
+def _hermtol_case(draw):
+    return {
+        "n": draw(st.integers(3, 6)),
+        "seed": draw(gen.SEED),
+        "cplx": draw(st.booleans()),
+        "fn": draw(st.sampled_from(["is_hermitian", "is_positive_semidefinite", "is_density"])),
+        "side": draw(st.sampled_from(["violates", "within"])),
+        "factor": draw(st.sampled_from([30.0, 100.0, 300.0])),
+    }
+
+
+def check_herm_tolerance(case):
+    from toqito.matrix_props import is_density, is_hermitian, is_positive_semidefinite
+
+    n = case["n"]
+    atol = 1e-8
+    k = n // 2
+    # block-diagonal positive definite matrix: the off-diagonal blocks are exact zeros
+    a = gen.rand_density(case["seed"], k, k, real=not case["cplx"]) + np.eye(k) / k
+    b = gen.rand_density(case["seed"] // 3 + 1, n - k, n - k, real=not case["cplx"]) + np.eye(n - k) / (n - k)
+    m = np.zeros((n, n), dtype=complex if case["cplx"] else float)
+    m[:k, :k] = a
+    m[k:, k:] = b
+    m = m / np.trace(m).real
+    m = (m + m.conj().T) / 2
+    eps = atol * case["factor"] if case["side"] == "violates" else atol / case["factor"]
+    m[0, n - 1] += eps  # its partner m[n-1, 0] stays exactly 0
+    fn = {"is_hermitian": is_hermitian, "is_positive_semidefinite": is_positive_semidefinite, "is_density": is_density}[case["fn"]]
+    got = bool(fn(m))
+    want = case["side"] == "within"
+    req(got == want, f"{case['fn']}(M) returned {got} for a positive definite M with one entry {eps:.1e} opposite an exact 0 (Hermiticity tolerance on a zero entry is atol = 1e-08): the definition gives {want}", "herm:tolerance-on-zero-entry")
+
+
+SUBCHECKS.append(SubCheck("herm_tolerance", check_herm_tolerance, _hermtol_case, lambda c: f"{c['fn']},{c['side']}", quick=1200, thorough=24000, shards=4))
